@@ -120,7 +120,9 @@ def check(pid, tier, scratch, replay):
     # follower and re-queue its task, every announced tip must still be processed and every task must still finish
     tjobs, tres, tjudged, tstates = props.trace_stage(scratch, [
         ('Gen_Pay.cfg', 'MC_Pay.tla', {}, dict(props.LIFE), 'trace-f', 30 if quick else 600, 16),
-        ('Gen_Stake.cfg', 'MC_Stake.tla', props.STAKE_X, dict(props.REMOVE_ONLY), 'trace-f', 30 if quick else 600, 16)], seed_mul=41)
+        ('Gen_Stake.cfg', 'MC_Stake.tla', props.STAKE_X, dict(props.REMOVE_ONLY), 'trace-f', 30 if quick else 600, 16),
+        # announcements (every third one relayed twice) between the tips: every notification must still be consumed
+        ('Gen_Pay.cfg', 'MC_Pay.tla', {}, dict(props.P), 'trace', 30 if quick else 600, 14)], seed_mul=41)
     jobs += tjobs
     results += tres
     violations, infra = [], 0
